@@ -58,6 +58,18 @@ type Conv struct {
 	misbehavingTried         map[string]bool
 	failKinds                map[string]bool
 	setup                    []string
+	// wantEnabled is the model of every pair's enabled flag: set when the pair is first seen, flipped only by
+	// toggle proposals of this machine - never read back from the store afterwards.
+	wantEnabled map[string]bool
+}
+
+func (m *Conv) noteToggle(addr string) {
+	if m.wantEnabled == nil {
+		m.wantEnabled = map[string]bool{}
+	}
+	if cur, ok := m.wantEnabled[addr]; ok {
+		m.wantEnabled[addr] = !cur
+	}
 }
 
 func (m *Conv) logf(format string, a ...interface{}) {
@@ -272,15 +284,31 @@ func (m *Conv) Step(t *rapid.T) {
 			if err, _ := w.Toggle(q.Addr.Hex()); err != nil {
 				kit.Failf("toggle back failed: %v", err)
 			}
+			m.noteToggle(q.Addr.Hex())
 			m.logf("gov toggles %s (pair now enabled=true)", q.Addr.Hex())
 		}
 	}
 	ctx := w.C.Ctx()
 	reg := w.ReadRegistry(ctx)
+	// a pair's enabled flag changes only through toggle proposals (conversions are refused while it is off)
+	if m.wantEnabled == nil {
+		m.wantEnabled = map[string]bool{}
+	}
+	for _, q := range reg.Pairs {
+		want, known := m.wantEnabled[q.Addr.Hex()]
+		if !known {
+			m.wantEnabled[q.Addr.Hex()] = q.Enabled
+			continue
+		}
+		if q.Enabled != want {
+			t.Fatalf("pair %s [%s] is stored with enabled=%v although the toggle proposals so far leave it enabled=%v: conversions would be %s\nhistory:\n  %s",
+				q.Addr.Hex(), strings.Join(q.Denoms, " "), q.Enabled, want, map[bool]string{true: "accepted while the pair is disabled", false: "refused while the pair is enabled"}[q.Enabled], m.history())
+		}
+	}
 	kind := rapid.SampledFrom([]string{
 		"convertCoin", "convertCoin", "convertCoin", "convertCoin", "convertCoin", "convertCoin", "convertCoin", "convertCoin",
 		"convertERC20", "convertERC20", "convertERC20", "convertERC20", "convertERC20", "convertERC20", "convertERC20", "convertERC20",
-		"erc20Transfer", "erc20Transfer", "erc20Burn", "toggle", "moduleParam", "sendEnabled", "flexMode", "flexMode", "commit",
+		"erc20Transfer", "erc20Transfer", "erc20Burn", "toggle", "moduleParam", "sendEnabled", "flexMode", "flexMode", "commit", "addCoin",
 	}).Draw(t, "action")
 	userIdx := rapid.IntRange(0, 2).Draw(t, "user")
 	u := w.Users[userIdx]
@@ -434,8 +462,43 @@ func (m *Conv) Step(t *rapid.T) {
 		if err != nil {
 			kit.Failf("toggle %s failed: %v (invalid=%v)", key, err, invalid)
 		}
+		m.noteToggle(p.Addr.Hex())
 		m.logf("gov toggles %s (pair %s now enabled=%v)", key, p.Addr.Hex(), !p.Enabled)
 		m.R.Label("gov_toggle")
+	case "addCoin":
+		// governance adds a further, so far unregistered, coin denomination to an existing pair (enabled or not)
+		p := reg.Pairs[rapid.IntRange(0, len(reg.Pairs)-1).Draw(t, "pair")]
+		for _, q := range reg.Pairs {
+			if !q.Enabled && rapid.Bool().Draw(t, "preferDisabledPair") {
+				p = q
+				break
+			}
+		}
+		var free []string
+		for _, d := range CoinDenoms {
+			if _, taken := reg.ByDenom[d]; !taken {
+				free = append(free, d)
+			}
+		}
+		if len(free) == 0 {
+			m.logf("addCoin: every coin denomination is registered")
+			break
+		}
+		d := free[rapid.IntRange(0, len(free)-1).Draw(t, "freeDenom")]
+		if _, ok := w.Meta[d]; !ok {
+			w.Meta[d] = CoinMetadata(d, rapid.Bool().Draw(t, "nameEqualsBase"), "coin "+d)
+		}
+		err, _ := w.AddCoin(w.Meta[d], p.Addr.Hex())
+		m.logf("gov adds coin %s to pair %s (enabled=%v) -> err=%v", d, p.Addr.Hex(), p.Enabled, err)
+		if err == nil {
+			m.R.Label(fmt.Sprintf("gov_addcoin_pair_enabled=%v", p.Enabled))
+		} else {
+			e := err.Error()
+			if len(e) > 60 {
+				e = e[:60]
+			}
+			m.R.Label("gov_addcoin_refused: " + e)
+		}
 	case "moduleParam":
 		on := rapid.Bool().Draw(t, "on")
 		if !w.ModuleEnabled && rapid.IntRange(0, 3).Draw(t, "reEnable") != 0 {
